@@ -26,19 +26,19 @@ import (
 //	VERIF_REPLAY_DIR where minimised replay files are written
 
 type replayFile struct {
-	Property string   `json:"property"`
-	Family   string   `json:"family"`
-	Tier     string   `json:"tier"`
-	Seed     uint64   `json:"seed"`
-	Rule     string   `json:"rule"`
-	Locus    string   `json:"locus"`
-	Msg      string   `json:"msg"`
-	Tape     []uint32 `json:"tape"`
-	Labels   []string `json:"labels,omitempty"`
-	Hash     string   `json:"hash"`
-	Trace    []string `json:"trace,omitempty"`
-	ShrunkFrom int    `json:"shrunk_from,omitempty"`
-	Candidates int    `json:"shrink_candidates,omitempty"`
+	Property   string   `json:"property"`
+	Family     string   `json:"family"`
+	Tier       string   `json:"tier"`
+	Seed       uint64   `json:"seed"`
+	Rule       string   `json:"rule"`
+	Locus      string   `json:"locus"`
+	Msg        string   `json:"msg"`
+	Tape       []uint32 `json:"tape"`
+	Labels     []string `json:"labels,omitempty"`
+	Hash       string   `json:"hash"`
+	Trace      []string `json:"trace,omitempty"`
+	ShrunkFrom int      `json:"shrunk_from,omitempty"`
+	Candidates int      `json:"shrink_candidates,omitempty"`
 }
 
 var watchdogDeadline atomic.Int64 // unix nanos (real clock); 0 = disarmed
